@@ -775,10 +775,18 @@ class Element(object):
         return self._parent
 
     def _set_parent(self, parent):
+        old_parent = getattr(self, '_parent', None)
         self._parent = parent
         if parent is not None:
             self.traversal_parent = None
-            self.parent.add(self)
+            try:
+                self.parent.add(self)
+            except Exception:
+                self._parent = old_parent  # refused: still a child of the previous parent
+                raise
+            if old_parent is not None and old_parent is not parent and \
+                    any(c is self for c in old_parent.children.list):
+                old_parent.children.remove(self)  # an element has one parent: it moves
 
     parent = property(_get_parent, _set_parent,
                       doc="The parent :class:`Element <hl7apy.core.Element>` of this one")
